@@ -819,3 +819,47 @@ func runC16TabPad(c *Ctx) {
 		c.bad(construct, fn.Pos(), "the padding is a number of spaces computed with runewidth, which gives a tab the width 0, while the source line is printed with the raw tab: the caret is left of the token for every tab width")
 	}
 }
+
+func init() {
+	register(&Rule{ID: "C01.UNMARSHALNIL", Min: 4, Doc: "the UnmarshalYAML methods of the metadata tables never store a nil element", Run: runC01UnmarshalNil})
+}
+
+// With C01.NULLTAG the UnmarshalYAML methods always run; what the rules rely on (elements of the metadata maps can be
+// dereferenced without a nil test) then follows from the methods storing the address of a fresh value for every key.
+func runC01UnmarshalNil(c *Ctx) {
+	p := c.P
+	n := 0
+	for _, fn := range p.Funcs {
+		if fn.Name() != "UnmarshalYAML" || fn.Signature.Recv() == nil {
+			continue
+		}
+		eachInstr(fn, func(_ *ssa.BasicBlock, _ int, in ssa.Instruction) {
+			mu, ok := in.(*ssa.MapUpdate)
+			if !ok {
+				return
+			}
+			mt, ok := mu.Map.Type().Underlying().(*types.Map)
+			if !ok {
+				return
+			}
+			if _, isPtr := mt.Elem().Underlying().(*types.Pointer); !isPtr {
+				return
+			}
+			n++
+			construct := fmt.Sprintf("%s|element stored#%d", FuncName(fn), n)
+			switch v := mu.Value.(type) {
+			case *ssa.Alloc:
+				c.ok(construct, mu.Pos(), "the address of a fresh value")
+			default:
+				if k, ok := v.(*ssa.Const); ok && k.IsNil() {
+					c.bad(construct, mu.Pos(), "nil is stored as an element: the rules dereference the elements of this table without a nil test")
+				} else {
+					c.bad(construct, mu.Pos(), "the stored element ("+symName(v)+") is not the address of a fresh value: it may be nil, and the rules dereference the elements of this table without a nil test")
+				}
+			}
+		})
+	}
+	if n == 0 {
+		c.anchorMissing("map updates in UnmarshalYAML methods")
+	}
+}
